@@ -111,6 +111,37 @@ pub fn traced_run(with_parent: bool, f: &mut dyn FnMut()) -> (Vec<SpanRecord>, u
     (std::mem::take(&mut *RECS.lock().unwrap()), root_id)
 }
 
+/// An async-trait method is called under one local parent and its future polled under another: the
+/// span belongs to the caller's.  Returns the records with parents named rootA (caller) / rootB (poller).
+pub fn split_begin() -> (Span, Span) {
+    fastrace::flush();
+    RECS.lock().unwrap().clear();
+    (Span::root("rootA", SpanContext::random()), Span::root("rootB", SpanContext::random()))
+}
+pub fn split_end(ra: Span, rb: Span) -> Value {
+    let ida = SpanContext::from_span(&ra).map(|c| c.span_id.0).unwrap_or(0);
+    let idb = SpanContext::from_span(&rb).map(|c| c.span_id.0).unwrap_or(0);
+    drop(ra);
+    drop(rb);
+    fastrace::flush();
+    let recs = std::mem::take(&mut *RECS.lock().unwrap());
+    Value::Array(
+        recs.iter()
+            .filter(|r| r.name != "rootA" && r.name != "rootB")
+            .map(|r| {
+                let parent = if r.parent_id.0 == ida {
+                    "rootA".to_string()
+                } else if r.parent_id.0 == idb {
+                    "rootB".to_string()
+                } else {
+                    recs.iter().find(|p| p.span_id == r.parent_id).map(|p| p.name.to_string()).unwrap_or_else(|| "?".into())
+                };
+                json!({"name": r.name, "parent": parent, "props": r.properties.iter().map(|(k, v)| json!([k, v])).collect::<Vec<_>>()})
+            })
+            .collect(),
+    )
+}
+
 pub fn recs_json(recs: &[SpanRecord], root_id: u64) -> Value {
     Value::Array(
         recs.iter()
